@@ -353,7 +353,9 @@ func (c *Client) Send(packet stanza.Packet) error {
 // a single critical section, so that the order of the queue is the order on the wire, whatever
 // the number of goroutines sending.
 func (c *Client) sendStanza(data []byte) error {
-	if c.config.StreamManagementEnable && c.Session != nil && c.Session.SMState.UnAckQueue != nil {
+	// (only on the stream-managed session itself: on a session bound without stream management -
+	// a reconnection to a server that does not offer it - nothing is added to what is still held)
+	if c.config.StreamManagementEnable && c.Session != nil && c.Session.smActive && c.Session.SMState.UnAckQueue != nil {
 		uaq := c.Session.SMState.UnAckQueue
 		uaq.RWMutex.Lock()
 		defer uaq.RWMutex.Unlock()
